@@ -93,6 +93,10 @@ def cpp_write_return_rules(ck, rule, facts):
     ck.expect(n >= 1 and direct, rule, "cpp::gen_c_to_cpp_for_return_type/write-conversions", "%d conversion matches" % n, "no value-conversion match over SuccessType found (anchor lost)", C.loc(f))
 
 
+def T_find(fn, adt_suffix):
+    return [n for n in C.walk(C.fn_body(fn)) if n.get("k") == "match" and (n.get("sadt") or "").endswith(adt_suffix)]
+
+
 def run(ck, facts):
     tool = facts.tool
     adts = facts.all_adts()
@@ -205,6 +209,22 @@ def run(ck, facts):
     ck.expect(okw, "R3", "cpp::gen_method_info/write-last", "", "`&write` is not appended under method.output.is_write()", C.loc(g))
     fl_t = fl
     ck.expect(re.search(r"for \w+ in \w+\.cpp_to_c_params", fl_t) is not None and "reverse" not in fl_t and "|sort" not in fl_t, "R3", "method_impl.h/param-order", "", "the template does not print cpp_to_c_params in order", "tool/templates/cpp/method_impl.h.jinja")
+    # the C++ spelling of a string view depends on the encoding (char vs char16_t code units) and is decided in ONE table, the formatter's: no generator
+    # function spells a view type itself (a hard-coded `std::string_view(x.data, x.len)` is a UTF-8 view built from char16_t*)
+    enc_tabs = [f_ for f_ in tool.fn_list if "hir" in f_ and C.norm_path(f_["path"]).startswith("diplomat_tool::cpp::formatter::") and T_find(f_, "StringEncoding")]
+    spellings = set()
+    for f_ in enc_tabs:
+        for m_ in T_find(f_, "StringEncoding"):
+            for arm in m_["arms"]:
+                spellings |= {l_ for l_ in C.str_lits(arm["b"]) if re.fullmatch(r"std::\w*string_view", l_)}
+    ck.expect(len(spellings) >= 2, "R4", "cpp::formatter/string-view-table", str(sorted(spellings)), "the formatter's encoding -> string view table was not found (spellings seen: %s)" % sorted(spellings), None)
+    for f_ in tool.fn_list:
+        if "hir" not in f_ or f_.get("dk") == "Closure" or f_.get("exp") or "askama::" in f_["path"] or f_ in enc_tabs or not re.match(r"^diplomat_tool::(cpp|nanobind)::", C.norm_path(f_["path"])):
+            continue
+        hard = sorted({sp for l_ in C.str_lits(C.fn_body(f_)) for sp in spellings if re.search(r"(?<![\w:])" + re.escape(sp) + r"(?!\w)", l_)})
+        if hard:
+            ck.bad("R4", "%s/hard-coded-string-view" % C.norm_path(f_["path"]).replace("diplomat_tool::", ""), "%s spells %s itself instead of asking the formatter's encoding table: the other encoding's "
+                   "strings get a view of the wrong code-unit type (does not compile, or reinterprets UTF-16 data as bytes)" % (f_["name"], hard), C.loc(f_))
     # ---------------- R4
     n4 = 0
     for fname in ("gen_c_to_cpp_for_return_type", "gen_c_to_cpp_for_type"):
@@ -350,5 +370,8 @@ def run(ck, facts):
     sub3 = C.SubCheck(ck, "R6", "", ["R5"], key_re=r"Callback|c_delete")
     c03.run(sub3, facts)
     import c09
-    sub4 = C.SubCheck(ck, "R6", "", ["R3"], key_re=r"^cpp/include-guard")
+    sub4 = C.SubCheck(ck, "R6", "", ["R3"], key_re=r"^cpp/(include-guard|header-path-siblings)")
     c09.run(sub4, facts)
+    # the predicate behind the generated UTF-8 validation accepts exactly well-formed UTF-8 (C16.R3 on diplomat_is_str)
+    import c16
+    c16.run(C.SubCheck(ck, "R1", "", ["R3"], key_re=r"diplomat_is_str"), facts)
